@@ -110,6 +110,7 @@ class ListItemsChangeHandler(Contract):
     path = "traits/observation/_list_item_observer.py"
     qualname = "_observer_change_handler"
     properties = ("C08", "C12")
+    undecided_probe = dict(harness="observe", family="reachability", trials=150)
     assumptions = ("A-PY", "add_or_remove_notifiers through the contract of _AddOrRemoveNotifier.__call__ (C09); a failing walk propagates")
 
     def configure(self, cx, I, ov):
@@ -133,6 +134,7 @@ class ListItemsChangeHandler(Contract):
             other = "attached" if key == "detached" else "detached"
             st2 = st.gset(key, bag_inc(st.ghost[key], obj)).gset("order_ok", z3.And(st.ghost["order_ok"], (
                 st.ghost["attached"] == ZERO) if key == "detached" else z3.BoolVal(True)))
+            st2 = st2.gset("n_" + key, st.ghost["n_" + key] + 1)
             st2 = st2.gset("graph_ok", z3.And(st.ghost["graph_ok"], as_val(I2.cx, kwargs["graph"], st) == z3.Const("graph", Val)))
             out = k(NONE, st2)
             e = I2.cx.fresh("walk_exc", Exc)
@@ -148,15 +150,18 @@ class ListItemsChangeHandler(Contract):
                 bag_axioms(cx, nxt)
                 cx.axioms.append(z3.Implies(z3.And(0 <= i, i < z3.Length(seq)), z3.And(z3.Extract(nxt, 0, i) == pre, nxt[i] == seq[i], z3.Length(nxt) == i + 1)))
                 cx.axioms.append(z3.Extract(seq, 0, z3.Length(seq)) == seq)
-                return [("%s-is-the-prefix-processed" % key, st.ghost[key] == bag(pre)), ("order", st.ghost["order_ok"]), ("graph", st.ghost["graph_ok"])]
+                # the count clause is implied by the bag clause; it is stated apart because it is linear and so fails with a model
+                return [("one-walk-per-item-so-far", st.ghost["n_" + key] == i),
+                        ("%s-is-the-prefix-processed" % key, st.ghost[key] == bag(pre)), ("order", st.ghost["order_ok"]), ("graph", st.ghost["graph_ok"])]
             return inv
         cx.on_loop = loops.make_hook({
-            0: loops.LoopSpec("for removed_item in event.removed", [], inv_for(removed, "detached"), ghost=["detached", "order_ok", "graph_ok"]),
-            1: loops.LoopSpec("for added_item in event.added", [], inv_for(added, "attached"), ghost=["attached", "order_ok", "graph_ok"])})
+            0: loops.LoopSpec("for removed_item in event.removed", [], inv_for(removed, "detached"), ghost=["detached", "n_detached", "order_ok", "graph_ok"]),
+            1: loops.LoopSpec("for added_item in event.added", [], inv_for(added, "attached"), ghost=["attached", "n_attached", "order_ok", "graph_ok"])})
 
     def setup(self, cx, I, ov):
         args = [VElem(z3.Const(n, Val)) for n in ("event", "graph", "handler", "target", "dispatcher")]
         st = St().gset("detached", ZERO).gset("attached", ZERO).gset("order_ok", z3.BoolVal(True)).gset("graph_ok", z3.BoolVal(True))
+        st = st.gset("n_detached", z3.IntVal(0)).gset("n_attached", z3.IntVal(0))
         bag_axioms(cx, self.removed)
         bag_axioms(cx, self.added)
         return st, args, {}, dict(witness=dict(removed=self.removed, added=self.added))
